@@ -30,7 +30,7 @@ claim('C13', 'proof',
       TB + RG, "CBMC code contracts", "3 C13")
 
 ZB = "Machine arithmetic is machine arithmetic (bit-vectors, IEEE binary64 round-to-nearest); pow/log are uninterpreted with an assumed sign/NaN contract. "
-claim('C06', 'proof',
+claim('C06', 'other',
       "Contracts of both operator()s proved with loop contracts incl. termination (decreases): result in [min,max], u <= GetCDF(v-min), GetCDF(v-min-1) <= u, for symbolic table sizes, all u in [0,1), all four integer types; table well-formedness is the proved post-condition of UpdateCDF (skolem index); default generators return 0; a bounded native sweep supplements the assumed libm facts.",
       TB + ZB + "Approximate class: abstract CDF array justified by the proved determinism of GetCDF; monotonicity in the closed-form region assumed from libm; the table/closed-form seam is an explicit obligation (known finding); domain bounds listed in the evidence.",
       "CBMC code contracts (loop invariants + decreases) on extracted C; skolemised table facts", "3 C06")
